@@ -72,7 +72,8 @@ META = {
         "and when only an ABC such as Iterable is required the caller's object is iterated once (a generator is empty in a second pass). "
         "R11: outside the function that feeds the validating constructor (a) no option is read from the raw conf.py value (app.config / env.config myst_*, attribute, subscript "
         "or getattr): it is un-validated and un-normalised; (b) project-wide code (outside parsers/ and mdit_to_docutils/) reads an option a document may override from the "
-        "validated env.myst_config only as the fallback of a more specific lookup (.get default, `or`, else-arm); global_only options are exempt from (b). "
+        "validated env.myst_config only as the fallback of a more specific lookup (.get default, `or`, else-arm - directly or through a local it is hoisted into, all of whose uses are such fallbacks); "
+        "global_only options are exempt from (b). "
         "R12: read_topmatter appends every front-matter line verbatim (only a strip of line-terminator characters is allowed, also through loop-local re-bindings of the line) "
         "and the disjunction of its end-of-block tests, evaluated abstractly over constants (f-strings, re.compile on literal patterns, str methods, local single definitions, the "
         "opening line bound to a probe) on eighteen (opener, line) probes, closes the block exactly where the markdown-it front_matter rule does: dashes at least as long as the "
@@ -80,7 +81,7 @@ META = {
         "R13: because Sphinx's i18n transform re-parses every msgstr under a ':<translated>' source without front matter (sibling re-read), MystParser.parse stores the config "
         "the document is rendered with (no assignment to that variable between the store and the call that obtains the parser whose .render() is used - create_md_parser or any factory/cache in front of it -, whichever function performs the merge) in the per-read store "
         "of the environment and starts from it, under a guard, for such sources. "
-        "R14: every option-dependent deprecation notice that exists anywhere (builder or a front end: `<const> in <config>.<field>` guarding a MystWarnings.DEPRECATED emission) "
+        "R14: every option-dependent deprecation notice that exists anywhere (builder or a front end: `<const> in <config>.<field>` guarding a MystWarnings.DEPRECATED emission, made directly or through a package helper) "
         "is decided in BOTH front-end parse functions on the config variable handed to the call that obtains the parser the document is rendered with, with no later assignment to it. "
         "The per-field update is located by role (the function that calls validate_field, reached from merge_file_level directly or through one or two "
         "module-level helpers with parameters substituted), so splitting merge_file_level into helpers keeps every rule deciding."
@@ -2351,9 +2352,23 @@ def _raw_conf_reads(f: FunctionInfo) -> list[tuple[ast.AST, str | None]]:
     return out
 
 
-def _in_fallback_position(n: ast.AST) -> bool:
+def _in_fallback_position(n: ast.AST, _depth: int = 0) -> bool:
     """``n`` is only used when a more specific lookup has no value: default of ``.get(k, n)`` / ``getattr(o, k, n)``,
-    last operand of ``or``, else-arm of a conditional expression."""
+    last operand of ``or``, else-arm of a conditional expression - directly, or through a local it is hoisted into
+    (``g = <n>`` once, every use of ``g`` in fallback position)."""
+    pa = parent(n)
+    if _depth < 2 and isinstance(pa, (ast.Assign, ast.AnnAssign)) and pa.value is n:
+        tgts = pa.targets if isinstance(pa, ast.Assign) else [pa.target]
+        if len(tgts) == 1 and isinstance(tgts[0], ast.Name):
+            from ..corpus import enclosing_function
+
+            f = enclosing_function(n)
+            name = tgts[0].id
+            if f is not None:
+                binds = [x for x in f.local_nodes() if isinstance(x, ast.Name) and x.id == name and isinstance(x.ctx, ast.Store)]
+                uses = [x for x in f.local_nodes() if isinstance(x, ast.Name) and x.id == name and isinstance(x.ctx, ast.Load)]
+                return len(binds) == 1 and name not in f.params and bool(uses) and all(_in_fallback_position(u, _depth + 1) for u in uses)
+        return False
     cur, p_ = n, parent(n)
     while p_ is not None and not isinstance(p_, ast.stmt):
         if isinstance(p_, ast.Call):
@@ -2741,12 +2756,19 @@ def r13_reparse_uses_file_level_config(corpus: Corpus, rep: Report, tier: str):
 # R14 notices about a configured option look at the configuration the document is parsed with
 
 
-def _mentions_deprecated(stmts: list[ast.stmt]) -> bool:
+def _mentions_deprecated(stmts: list[ast.stmt], corpus: Corpus | None = None, depth: int = 0) -> bool:
+    """The statements emit a MystWarnings.DEPRECATED warning - directly, or through a package helper (one or two
+    levels) that does, e.g. ``create_attrs_image_warning(document)``."""
     for st in stmts:
         for x in ast.walk(st):
             d = dotted(x) if isinstance(x, ast.Attribute) else None
             if d and (d.endswith("MystWarnings.DEPRECATED") or d.endswith("MystWarnings.DEPRECATED.value")):
                 return True
+            if corpus is not None and depth < 2 and isinstance(x, ast.Call) and dotted(x.func):
+                mod = getattr(x, "_mod", None)
+                callee = corpus.find_function(mod.resolve(dotted(x.func))) if mod is not None else None
+                if callee is not None and not callee.is_lambda and _mentions_deprecated(callee.node.body, corpus, depth + 1):
+                    return True
     return False
 
 
@@ -2780,7 +2802,7 @@ def r14_option_notices_use_the_document_config(corpus: Corpus, rep: Report, tier
     scan = [corpus.func("sphinx_ext.main:create_myst_config")] + [f for f, _, _ in fronts]
     for f in scan:
         for n in f.local_nodes():
-            if isinstance(n, ast.If) and _mentions_deprecated(n.body):
+            if isinstance(n, ast.If) and _mentions_deprecated(n.body, corpus):
                 for const, fld, recv in _option_membership_tests(n.test):
                     if fld in fields:
                         notices.setdefault((const, fld), f.module.site(n))
@@ -2792,7 +2814,7 @@ def r14_option_notices_use_the_document_config(corpus: Corpus, rep: Report, tier
             cfg = get_cfg(f)
             mk_st = cfg.stmt_of(mk)
             k = f"{f.fq}|notice for {const!r} in {fld} is decided on the document's final config"
-            tests = [n for n in f.local_nodes() if isinstance(n, ast.If) and _mentions_deprecated(n.body) and any(c == const and fl == fld and isinstance(r, ast.Name) and r.id == cvar for c, fl, r in _option_membership_tests(n.test))]
+            tests = [n for n in f.local_nodes() if isinstance(n, ast.If) and _mentions_deprecated(n.body, corpus) and any(c == const and fl == fld and isinstance(r, ast.Name) and r.id == cvar for c, fl, r in _option_membership_tests(n.test))]
             if not tests:
                 rep.violation(
                     "C13.R14",
@@ -4142,16 +4164,28 @@ def mutants(corpus: Corpus):
     # 45d3d4c deprecation notice on the document's config
     du = corpus.mod("parsers.docutils_")
     f = du.func("Parser.parse")
-    note = find_node(f, lambda n: isinstance(n, ast.If) and _mentions_deprecated(n.body) and n in f.node.body)
+    note = find_node(f, lambda n: isinstance(n, ast.If) and _mentions_deprecated(n.body, corpus) and n in f.node.body)
     tr = find_node(f, lambda n: isinstance(n, ast.Try) and "read_topmatter" in unparse(n) and n in f.node.body)
     if note is not None and tr is not None and note.lineno > tr.lineno:
         out.append(Mutant("c13-45d3d4c-reverted-docutils-notice-decided-before-the-merge", "C13.R14", du.rel, _splice_many(du.src, [(tr, _seg(du, note) + "\n" + _indent(du, tr) + _seg(du, tr)), (note, "pass")]), expect="final config"))
     sp = corpus.mod("parsers.sphinx_")
     f = sp.func("MystParser.parse")
-    note = find_node(f, lambda n: isinstance(n, ast.If) and _mentions_deprecated(n.body))
+    note = find_node(f, lambda n: isinstance(n, ast.If) and _mentions_deprecated(n.body, corpus))
     if note is not None:
         out.append(Mutant("c13-45d3d4c-reverted-sphinx-has-no-per-document-notice", "C13.R14", sp.rel, splice(sp.src, note, "pass"), expect="final config"))
         pos = next((r for c, fl, r in _option_membership_tests(note.test) if isinstance(r, ast.Name)), None)
         if pos is not None:
             out.append(Mutant("c13-sphinx-notice-tests-the-global-config", "C13.R14", sp.rel, splice(sp.src, pos, "env.myst_config"), expect="final config"))
+    # ---- round 16: the global value hoisted into a local and then used on its own (R11 b)
+    mr = corpus.mod("sphinx_ext.myst_refs")
+    f = mr.func("MystReferenceResolver.run")
+    gr_ = next((nd for nd, nm in _global_config_reads(f) if nm == "ref_domains"), None)
+    if gr_ is not None:
+        top = gr_
+        while isinstance(parent(top), (ast.Call, ast.Attribute)) and not isinstance(parent(top), ast.stmt):
+            top = parent(top)
+        st = enclosing_stmt_of(top)
+        if top is not gr_ and isinstance(st, (ast.Assign, ast.AnnAssign)):
+            ind = _indent(mr, st)
+            out.append(Mutant("c13-resolver-uses-the-hoisted-global-ref-domains-only", "C13.R11", mr.rel, splice(mr.src, st, f"_global_domains = {_seg(mr, gr_)}\n{ind}{_seg(mr, st).replace(_seg(mr, top), '_global_domains')}"), expect="reads global config value"))
     return out
